@@ -134,6 +134,28 @@ Theorem C13_cmd_no_secret_survives_partial : forall root args script p,
   ~ occurs p (cmd_out src_params arg_secrets_deep root args script).
 Proof. exact (cmd_no_secret_survives_src src_params arg_secrets_deep C13_src_collects_nested). Qed.
 
+(* however the command ends - exit status 0, a non-zero exit status or any other error after it has written its
+   output, or a failure to start - what esc forwards on each stream is the output loop run over EVERYTHING the command
+   wrote to that stream (nothing is withheld on the error path, the forwarded bytes do not depend on the exit status),
+   and esc fails exactly when running the command failed *)
+Theorem C13_cmd_nothing_withheld_however_it_ends : forall root args e script script2,
+  let secrets := cmd_secrets arg_secrets_deep root args in
+  let w1 := child_wrote e (cmd_stream (cmd_args root args) script) in
+  let w2 := child_wrote e script2 in
+  cmd_run src_params arg_secrets_deep root args e script script2 =
+    (emit ph false w1 (stream_flags (filtered secrets) w1),
+     emit ph false w2 (stream_flags (filtered secrets) w2),
+     child_failed e).
+Proof. exact (cmd_run_streams src_params arg_secrets_deep). Qed.
+
+(* ... and no secret of the environment occurs in either stream *)
+Theorem C13_cmd_streams_no_secret_survives_partial : forall root args e script script2 p,
+  env_secret true root args p ->
+  rp_min_len src_params <= length p -> has_inner_newline p = false -> indep ph p = true ->
+  let r := cmd_run src_params arg_secrets_deep root args e script script2 in
+  ~ occurs p (fst (fst r)) /\ ~ occurs p (snd (fst r)).
+Proof. exact (cmd_run_no_secret_survives_src src_params arg_secrets_deep C13_src_collects_nested). Qed.
+
 (* the defect repaired by fix 2: collecting only the referenced value's own flag lets a nested secret through *)
 Theorem C13_unrepaired_nested_arg_secret_forwarded :
   env_secret true leak_root leak_args (chars "nested99")
